@@ -545,10 +545,12 @@ def defaultTable : Py.Str := "ATOM".toList
 /-- the loop of `_fix_chainID` that fills `newID` -/
 def fillNewID (db : Db) : List (Nat × Py.Str) → List Val → Except Err (List Val)
   | [], newID => .ok newID
-  | (ic, chain) :: rest, newID => do
-    let index ← get db rowIDName defaultTable [{ key := "chainID".toList, arg := .scalar (.text chain) }] >>= asInts
-    let letter : Val := .text [Char.ofNat (65 + ic)]
-    fillNewID db rest (index.foldl (fun acc ind => if ind < 0 then acc else acc.set ind.toNat letter) newID)
+  | (ic, chain) :: rest, newID =>
+    match get db rowIDName defaultTable [{ key := "chainID".toList, arg := .scalar (.text chain) }] >>= asInts with
+    | .error e => .error e
+    | .ok index =>
+      let letter : Val := .text [Char.ofNat (65 + ic)]
+      fillNewID db rest (index.foldl (fun acc ind => if ind < 0 then acc else acc.set ind.toNat letter) newID)
 
 /-- `_fix_chainID` up to the final `update_column`: the new chain identifiers, one per atom -/
 def fixChainIDNew (db : Db) : Except Err (List Val) :=
